@@ -112,6 +112,11 @@ static OpRes op_group(Case &c, Draw &d, hwloc_topology_t t, const OpOpts &o) {
     if (mode == 5 && d.chance(1, 2)) { int i; hwloc_bitmap_t s = hwloc_bitmap_alloc(); hwloc_bitmap_foreach_begin(i, hwloc_topology_get_topology_cpuset(t)) { if (d.chance(1, 2)) hwloc_bitmap_set(s, i); } hwloc_bitmap_foreach_end(); hwloc_bitmap_copy(g->cpuset, s); hwloc_bitmap_free(s); from = "arbitrary-bits"; }
     from = "cpuset-of:" + from;
   }
+  // F-C02-d (open) excluded by construction in every shape: a Group whose nodeset names a CPU-less NUMA node is inserted by cpuset only and ends up
+  // with a nodeset the tree does not justify (the helper hwloc_obj_add_other_obj_sets() on a CPU-less node builds such a Group too)
+  if (!o.allow_cpuless_nodeset_group) { bool hit = false;
+    for (hwloc_obj_t n = NULL; (n = hwloc_get_next_obj_by_type(t, HWLOC_OBJ_NUMANODE, n));) if (hwloc_bitmap_iszero(n->cpuset)) { if (g->nodeset && hwloc_bitmap_isset(g->nodeset, n->os_index)) { hwloc_bitmap_clr(g->nodeset, n->os_index); hit = true; } if (g->complete_nodeset && hwloc_bitmap_isset(g->complete_nodeset, n->os_index)) { hwloc_bitmap_clr(g->complete_nodeset, n->os_index); hit = true; } }
+    if (hit) { c.excluded("F-C02-d"); from += "(cpu-less nodes removed)"; } }
   g->attr->group.kind = d.chance(2, 3) ? 0 : d.range(1, 5); g->attr->group.subkind = d.range(0, 3);
   if (d.chance(1, 5)) { if (o.allow_dont_merge) g->attr->group.dont_merge = 1; else c.excluded("F-C02-a"); }
   if (d.chance(1, 3)) hwloc_obj_add_info(g, "GroupInfo", "v");
